@@ -40,19 +40,22 @@ var (
 	keywords = map[string]token.Type{}
 )
 
-// Whitespace is what the implementation treats as such: a byte b is whitespace iff lexing the one-byte input b
-// gives the end marker at once with HadWhitespace() (so a benign change of the whitespace set is not an alarm).
-var wsTab [256]bool
+// The whitespace class is PART of what C16 fixes: space, tab, LF, CR and nothing else (a lexer whose skipWhitespace
+// swallows more would satisfy "every byte is whitespace or in a token" vacuously). The oracle judges tiling with this
+// set, never with the lexer's own.
+func isWS(b byte) bool { return b == ' ' || b == '\t' || b == '\n' || b == '\r' }
+
+// lexerSkips[b]: what the implementation does with the one-byte input b (end marker at once with HadWhitespace()).
+// Used ONLY to give the failure "a non-whitespace byte is in no token" a precise signature and detail.
+var lexerSkips [256]bool
 
 func initWS() {
 	for b := 0; b < 256; b++ {
 		l := lexer.NewBytes([]byte{byte(b)})
 		t := l.NextToken()
-		wsTab[b] = isEndTok(t) && l.HadWhitespace()
+		lexerSkips[b] = isEndTok(t) && l.HadWhitespace()
 	}
 }
-
-func isWS(b byte) bool { return wsTab[b] }
 
 func isEndTok(t *token.Token) bool { return t != nil && (t.Type() == token.EOF || t.Type() == token.EOL) }
 
@@ -283,6 +286,16 @@ func oracle(c *Ctx, src []byte, lineMode bool, recs, post []rec, panicked string
 		prevEnd = r.p1
 		gap := src[min(r.p0, n):min(r.start, n)]
 		rebuilt = append(rebuilt, gap...)
+		// a byte that is not whitespace but that the lexer skips like whitespace belongs to no token
+		if r.start < n && lexerSkips[src[r.start]] {
+			e := r.start
+			for e < n && (isWS(src[e]) || lexerSkips[src[e]]) {
+				e++
+			}
+			fail("non-whitespace-byte-in-no-token", "token %d: byte 0x%02x at %d is skipped by the lexer but is not whitespace (skipped run %q, then %q)",
+				i, src[r.start], r.start, src[r.start:e], src[e:min(n, e+8)])
+			return
+		}
 		if r.ws != (len(gap) > 0) {
 			fail("hadwhitespace-flag", "token %d gap %q HadWhitespace=%v", i, gap, r.ws)
 		}
@@ -445,7 +458,7 @@ func lenClass(n int) string {
 
 // the significant alphabet of the property
 var alphabet = []byte{'0', '1', '9', 'a', 'e', 'E', 'x', 'b', '_', '.', '+', '-', '"', '`', '\\', '/', '*',
-	'=', '!', '<', '&', ':', ' ', '\n', 0x00, 0xff, '@'}
+	'=', '!', '<', '&', ':', ' ', '\n', 0x00, 0xff, '@', '\v', '\f'}
 
 func enumerate(alpha []byte, n int, f func([]byte)) {
 	cur := make([]byte, n)
@@ -473,7 +486,7 @@ var corpus = []string{
 
 func runC16(c *Ctx) {
 	c.Rule = "exhaustive: every byte string of length <= 2 over all 256 byte values and of length <= L (3 quick / 4 thorough) over the " +
-		"27-symbol significant alphabet, both lexer modes; random longer inputs over a weighted alphabet; byte mutations of /repo/examples/*.gr. " +
+		"29-symbol significant alphabet (incl. \\v \\f), both lexer modes; random longer inputs over a weighted alphabet; byte mutations of /repo/examples/*.gr. " +
 		"non-trivial = distinct input with a multi-byte token, a string, a comment or an ILLEGAL byte"
 	initWS()
 	for t := token.FUNC; t <= token.DEL; t++ {
@@ -522,6 +535,14 @@ func runC16(c *Ctx) {
 		}
 		c16One(c, []byte("//"+a+"x"+a+"\ny"))
 	}
+	// every byte value between / next to tokens of every kind (control bytes 0x00-0x1f, 0x7f, 0x80-0xff included)
+	for b := 0; b < 256; b++ {
+		x := string([]byte{byte(b)})
+		for _, ctx := range [][2]string{{"1", "+2"}, {"a", "b"}, {"a ", " b"}, {"(", ")"}, {"\"s\"", "\"t\""}, {"// c\n", "x"}, {"/* c */", "1.5"},
+			{"x\n", "\ny"}, {"", "if"}, {"..", ""}, {"1", x + "2"}} {
+			c16One(c, []byte(ctx[0]+x+ctx[1]))
+		}
+	}
 	// exhaustive: all single bytes, all pairs of bytes
 	all := make([]byte, 256)
 	for i := range all {
@@ -541,7 +562,7 @@ func runC16(c *Ctx) {
 	c.Extra["exhaustive_max_len"] = maxLen
 	// random longer inputs: weighted alphabet + fragments
 	frags := []string{"1e+", "1e", ".5", "..", "0x1f", "0b10", "\"", "`", "\\", "\\x4", "\\u26", "\\U0001F600", "//", "/*", "*/", "\n", " ", "\t", "\r",
-		"func", "true", "if", "x", "_a1", "1_0", "e", "E", ".", "+", "-", "=", "=>", ":=", "<", "<<", "&", "|", "\x00", "\xff", "\xc2\xa0", "\xe2\x80\x80", "@", "#", "(", ")", "[", "]", "{", "}", ",", ";", "9", "0"}
+		"\v", "\f", "\x7f", "\x01", "\x1f", "func", "true", "if", "x", "_a1", "1_0", "e", "E", ".", "+", "-", "=", "=>", ":=", "<", "<<", "&", "|", "\x00", "\xff", "\xc2\xa0", "\xe2\x80\x80", "@", "#", "(", ")", "[", "]", "{", "}", ",", ";", "9", "0"}
 	nr := 3000
 	if c.Thorough() {
 		nr = 150000
@@ -561,7 +582,11 @@ func runC16(c *Ctx) {
 		c16One(c, b)
 	}
 	// byte mutations of the shipped examples
-	files, _ := filepath.Glob("/repo/examples/*.gr")
+	repoDir := os.Getenv("VERIF_REPO")
+	if repoDir == "" {
+		repoDir = "/repo"
+	}
+	files, _ := filepath.Glob(filepath.Join(repoDir, "examples", "*.gr"))
 	sort.Strings(files)
 	nm := 2
 	if c.Thorough() {
